@@ -511,15 +511,20 @@ fn word_magic(xs: &mut Xstate) -> Xresult {
             fail_pos: pos,
         });
     }
-    move_offset_checked(xs, s.end())?;
-    xs.push_data(Cell::from(s))
+    push_and_advance(xs, Cell::from(s.clone()), s.end())
+}
+
+// The value goes on the stack first: a push that the stack limit refuses must leave the offset
+// where it was (the new offset comes from a successful peek, so moving there cannot fail).
+fn push_and_advance(xs: &mut Xstate, val: Cell, pos: usize) -> Xresult {
+    xs.push_data(val)?;
+    move_offset_checked(xs, pos)
 }
 
 fn read_bits(xs: &mut Xstate, n: usize) -> Xresult {
     let s = peek_bits(xs, n)?;
-    move_offset_checked(xs, s.end())?;
-    let val = Cell::from(s);
-    xs.push_data(val)
+    let pos = s.end();
+    push_and_advance(xs, Cell::from(s), pos)
 }
 
 fn word_bitstr(xs: &mut Xstate) -> Xresult {
@@ -559,8 +564,8 @@ fn read_unsigned(xs: &mut Xstate, n: usize, bo: Byteorder) -> Xresult {
         return Err(Xerr::IntegerOverflow);
     }
     let x = s.to_uint(bo) as Xint;
-    move_offset_checked(xs, s.end())?;
-    xs.push_data(Cell::from(x).with_tags(bitstr_num_tags(s, bo)))
+    let pos = s.end();
+    push_and_advance(xs, Cell::from(x).with_tags(bitstr_num_tags(s, bo)), pos)
 }
 
 fn read_signed(xs: &mut Xstate, n: usize, bo: Byteorder) -> Xresult {
@@ -569,8 +574,8 @@ fn read_signed(xs: &mut Xstate, n: usize, bo: Byteorder) -> Xresult {
         return Err(Xerr::IntegerOverflow);
     }
     let x = s.to_int(bo);
-    move_offset_checked(xs, s.end())?;
-    xs.push_data(Cell::from(x).with_tags(bitstr_num_tags(s, bo)))
+    let pos = s.end();
+    push_and_advance(xs, Cell::from(x).with_tags(bitstr_num_tags(s, bo)), pos)
 }
 
 fn read_signed_n(xs: &mut Xstate, n: usize) -> Xresult {
@@ -595,8 +600,8 @@ fn read_float(xs: &mut Xstate, n: usize, bo: Byteorder) -> Xresult {
         64 => s.to_f64(bo) as Xreal,
         n => return Err(float_len_err(n)),
     };
-    move_offset_checked(xs, s.end())?;
-    xs.push_data(Cell::from(val).with_tags(bitstr_num_tags(s, bo)))
+    let pos = s.end();
+    push_and_advance(xs, Cell::from(val).with_tags(bitstr_num_tags(s, bo)), pos)
 }
 
 fn bitstr_num_tags(bs: Bitstr, bo: Byteorder) -> Xmap {
@@ -608,7 +613,8 @@ fn bitstr_num_tags(bs: Bitstr, bo: Byteorder) -> Xmap {
     m
 }
 
-fn nulbytestr_read(xs: &mut Xstate) -> Xresult1<Bitstr> {
+// the bytes up to and including the first zero byte, and the offset behind them
+fn nulbytestr_peek(xs: &mut Xstate) -> Xresult1<(Bitstr, usize)> {
     let mut s = rest_bits(xs)?;
     if !s.is_bytestr() {
         return Err(Xerr::ToBytestrError(s));
@@ -622,17 +628,16 @@ fn nulbytestr_read(xs: &mut Xstate) -> Xresult1<Bitstr> {
         }
     }
     let ss = s.read(len).unwrap();
-    move_offset_checked(xs, start + len)?;
-    Ok(ss)
+    Ok((ss, start + len))
 }
 
 fn nulbytestr_word(xs: &mut Xstate) -> Xresult {
-    let bs = nulbytestr_read(xs)?;
-    xs.push_data(Cell::from(bs))
+    let (bs, pos) = nulbytestr_peek(xs)?;
+    push_and_advance(xs, Cell::from(bs), pos)
 }
 
 fn cstr_word(xs: &mut Xstate) -> Xresult {
-    let bs = nulbytestr_read(xs)?;
+    let (bs, pos) = nulbytestr_peek(xs)?;
     let mut s = String::with_capacity(bs.len() / 8 + 1);
     for (x, _) in bs.iter8() {
         if x == 0 {
@@ -641,7 +646,7 @@ fn cstr_word(xs: &mut Xstate) -> Xresult {
         let c = char::from_u32(x as u32).unwrap();
         s.push(c)
     }
-    xs.push_data(Cell::from(s))
+    push_and_advance(xs, Cell::from(s), pos)
 }
 
 fn word_write(xs: &mut Xstate) -> Xresult {
